@@ -142,8 +142,10 @@ impl<L: SimLang> Analysis<L> for SimAn {
                     todo.push(kids[0].clone());
                 }
             }
+            // (the children are spelled in the slot names of class `id`: so is `this`, once, for all of them -
+            // the class may be merged away by the first union; an invocation of a dead class stays valid)
+            let this = eg.mk_identity_applied_id(id);
             for x in todo {
-                let this = eg.mk_identity_applied_id(eg.find_applied_id(&eg.mk_identity_applied_id(id)).id);
                 eg.union(&this, &x);
             }
             return;
@@ -151,6 +153,31 @@ impl<L: SimLang> Analysis<L> for SimAn {
         if !eg.analysis.modify || L::NAME != "LA" {
             return;
         }
+        {
+            // unit laws as part of the hook: `a * 1 = a`, `a + 0 = a` (model-valid). Unlike constant folding
+            // they unite the class - usually the one `add` has just created - with an older class that HAS
+            // parameters. Whether the hook gets to see a given e-node is up to the crate (it calls `modify`
+            // for new classes and for classes whose datum changed); the oracles do not depend on it firing.
+            let id0 = eg.find_applied_id(&eg.mk_identity_applied_id(id)).id;
+            let mut todo: Vec<AppliedId> = Vec::new();
+            for n in eg.enodes(id0) {
+                let (name, _, _, _) = n.unmk();
+                let kids = n.applied_id_occurrences();
+                if kids.len() == 2 && (name == "mul" || name == "add") {
+                    let unit = if name == "mul" { 1 } else { 0 };
+                    if eg.analysis_data(kids[1].id).cst == Some(unit) {
+                        todo.push(kids[0].clone());
+                    } else if eg.analysis_data(kids[0].id).cst == Some(unit) {
+                        todo.push(kids[1].clone());
+                    }
+                }
+            }
+            let this = eg.mk_identity_applied_id(id0);
+            for x in todo {
+                eg.union(&this, &x);
+            }
+        }
+        let id = eg.find_applied_id(&eg.mk_identity_applied_id(id)).id;
         if let Some(c) = eg.analysis_data(id).cst {
             let mut nm = Naming::new(0);
             let node = L::mk(&crate::tm::Tm::pay("num", c), &mut nm);
